@@ -2356,13 +2356,16 @@ class Transport(threading.Thread, ClosingContextManager):
                 self._log(DEBUG, "EOF in transport thread")
                 self.saved_exception = e
             except socket.error as e:
-                if type(e.args) is tuple:
-                    if e.args:
-                        emsg = "{} ({:d})".format(e.args[1], e.args[0])
-                    else:  # empty tuple, e.g. socket.timeout
-                        emsg = str(e) or repr(e)
+                if (
+                    type(e.args) is tuple
+                    and len(e.args) == 2
+                    and isinstance(e.args[0], int)
+                ):
+                    emsg = "{} ({:d})".format(e.args[1], e.args[0])
                 else:
-                    emsg = e.args
+                    # no errno: OSError("text"), socket.timeout(), subclasses
+                    # raised by socket-like objects, ...
+                    emsg = str(e) or repr(e)
                 self._log(ERROR, "Socket exception: " + emsg)
                 self.saved_exception = e
             except Exception as e:
